@@ -136,6 +136,16 @@ theorem fifoB_of_prefix (P : Params) (il : Bool) (acc : List Write) (mv : List C
     rw [countP_si_take_of_prefix h j (Nat.le_of_lt hj), ← f1, ← f2, g1, g2, g3, earlier_eq_filter P acc ws1 ws2 a hs e]
     rfl
 
+/-- over reliable ordered streams every chunk the writes queue is ordered (`packetize`: `unordered = ppi != DCEP && s.unordered`) -/
+theorem reliable_written_ordered (P : Params) (ops : List Op) (hrel : Reliable ops = true) :
+    ∀ c ∈ written (init P).snd (sndOps P (init P).snd ops), c.unordered = false := by
+  intro c hc
+  obtain ⟨hgen, _⟩ := run_gen P.cfg.useInterleaving (fun m => (P.pay m).length) [] (init P).snd (sndOps P (init P).snd ops)
+    (init_cinv _ P.cfg P.tsn P.peerRwnd) rfl (sndOps_ord P (init P).snd ops hrel) (sndOps_lenOk P (init P).snd ops)
+  rw [hgen] at hc
+  obtain ⟨ws1, a, ws2, i, _, hi⟩ := gen_mem _ _ _ _ _ c hc
+  exact (grp_get _ _ _ _ _ _ _ hi).2.2.2.1
+
 /-- **FIFO selection is message-contiguous and per-stream FIFO**: over reliable ordered streams, a run whose gathers
 always select the oldest pending chunk moves the chunks in the order the writes created them — message after message,
 the fragments of each adjacent and in order (`C01_write_fragments`, `C01_ssn_assignment`). -/
